@@ -122,6 +122,21 @@ class PermCore:
                 self.flushing = False
 
 
+def close_core(core: "PermCore", wait: float = 2.0):
+    """End of a run: no queued body may start afterwards, and a flush in progress (timer thread) is waited for — bodies of a
+    finished (failed) run must not write into the next run's logs or print after the streams have been restored."""
+    with core.lock:
+        if core.timer is not None:
+            core.timer.cancel()
+        for f, *_ in core.pending:
+            f.cancel()
+        core.pending = []
+        core.debounce = None
+    t0 = time.time()
+    while core.flushing and time.time() - t0 < wait:
+        time.sleep(0.002)
+
+
 class PermExecutor(Executor):
     def __init__(self, core: PermCore, tag: str = ""):
         self.core, self.tag = core, tag
@@ -163,6 +178,20 @@ class SeededDelay:
     def __call__(self, kw_enc):
         h = hashlib.sha1(f"{self.seed}:{kw_enc!r}".encode()).digest()
         return (h[0] * 256 + h[1]) / 65536.0 * self.max_s
+
+
+class FailAt:
+    """`fail=` hook of a generated function: raises `exc` at the call whose encoded keyword arguments equal `target`.
+    The target is (re)set per run; picklable (process pools)."""
+
+    def __init__(self):
+        self.target = None
+        self.cls = "Fail"
+
+    def __call__(self, kw_enc, idx):
+        if self.target is not None and kw_enc == self.target:
+            return {"Fail": terms.Fail, "KeyError": KeyError, "ValueError": ValueError}[self.cls]("injected failure")
+        return None
 
 
 def run_with_watchdog(fn, timeout: float):
